@@ -9,7 +9,7 @@ namespace HappyModel.C05
 
 /-- the stateful harness entity as an entity-local handler on events without index -/
 def ruleHandler (prog : List (Nat × Nat × Emit)) (sprog : List SRule) : EHandler ESt :=
-  fun σ d => ruleStep prog sprog σ d.tgt d.kind
+  fun σ d => ruleStep prog sprog σ d.time d.tgt d.kind
 
 theorem ruleHandlerL_eq (prog : List (Nat × Nat × Emit)) (sprog : List SRule) :
     ruleHandlerL prog sprog = liftP (ruleHandler prog sprog) := rfl
@@ -18,55 +18,122 @@ def SRule.notFirst : SRule → Prop
   | .first _ _ _ _ => False
   | _ => True
 
-theorem fire_comm (σ0 : ESt) (me ka kd : Nat) (r : SRule) (hr : r.notFirst) (x : Emit) :
-    (fireRule σ0 me ka r).count x
-      + (fireRule ⟨σ0.cnt + 1, fun j => j == ka || σ0.seen j⟩ me kd r).count x
-    = (fireRule σ0 me kd r).count x
-      + (fireRule ⟨σ0.cnt + 1, fun j => j == kd || σ0.seen j⟩ me ka r).count x := by
+/-- a cancelled timer popped by the engine -/
+def gh (σ : ESt) (k : Nat) : Bool := isTimer k && σ.cancelled (codeOf k)
+
+/-- the state after a delivery that is not a ghost -/
+def upd (σ : ESt) (kEnc : Nat) : ESt :=
+  { cnt := σ.cnt + 1, seen := fun j => j == kindOf kEnc || σ.seen j,
+    cancelled := fun c => (isCanceller kEnc && c == codeOf kEnc && !σ.fired c) || σ.cancelled c,
+    fired := fun c => (isTimer kEnc && c == codeOf kEnc) || σ.fired c }
+
+def rawEms (prog : List (Nat × Nat × Emit)) (sprog : List SRule) (σ : ESt) (t me kEnc : Nat) : List Emit :=
+  ((prog.filter (fun x => x.1 == me && x.2.1 == kindOf kEnc)).map (·.2.2))
+    ++ sprog.flatMap (fireRule σ me (kindOf kEnc) t kEnc)
+
+theorem ruleStep_eq (prog : List (Nat × Nat × Emit)) (sprog : List SRule) (σ : ESt) (t me kEnc : Nat) :
+    ruleStep prog sprog σ t me kEnc
+      = if gh σ kEnc then (σ, [])
+        else (upd σ kEnc, (rawEms prog sprog σ t me kEnc).map (fun x => ⟨x.delay, x.tgt, x.kind + 64 * (me + 1)⟩)) := rfl
+
+/-- **ghost_is_silent** — the delivery of a cancelled timer (what the code's engine pops and skips)
+    changes no state and emits nothing -/
+theorem ghost_is_silent (prog : List (Nat × Nat × Emit)) (sprog : List SRule) (σ : ESt) (t me kEnc : Nat)
+    (h : isTimer kEnc = true) (hc : σ.cancelled (codeOf kEnc) = true) :
+    ruleStep prog sprog σ t me kEnc = (σ, []) := by
+  rw [ruleStep_eq]; simp [gh, h, hc]
+
+/-- a timer and the canceller of that very timer -/
+def conflict (ka kd : Nat) : Prop :=
+  codeOf ka = codeOf kd ∧ ((isTimer ka = true ∧ isCanceller kd = true) ∨ (isCanceller ka = true ∧ isTimer kd = true))
+
+instance (ka kd : Nat) : Decidable (conflict ka kd) := by unfold conflict; infer_instance
+
+theorem gh_upd (σ : ESt) (ka kd : Nat) (hnc : ¬ conflict ka kd) : gh (upd σ ka) kd = gh σ kd := by
+  unfold gh upd
+  by_cases h1 : isTimer kd = true
+  · by_cases h2 : isCanceller ka = true
+    · by_cases h3 : codeOf kd = codeOf ka
+      · exact absurd ⟨h3.symm, Or.inr ⟨h2, h1⟩⟩ hnc
+      · simp [h1, h2, h3]
+    · simp [h1, h2]
+  · simp [h1]
+
+theorem upd_comm (σ : ESt) (ka kd : Nat) (hnc : ¬ conflict ka kd) :
+    upd (upd σ ka) kd = upd (upd σ kd) ka := by
+  have n1 : ¬ (isTimer ka = true ∧ isCanceller kd = true ∧ codeOf ka = codeOf kd) :=
+    fun h => hnc ⟨h.2.2, Or.inl ⟨h.1, h.2.1⟩⟩
+  have n2 : ¬ (isCanceller ka = true ∧ isTimer kd = true ∧ codeOf ka = codeOf kd) :=
+    fun h => hnc ⟨h.2.2, Or.inr ⟨h.1, h.2.1⟩⟩
+  unfold upd
+  simp only [ESt.mk.injEq]
+  refine ⟨trivial, ?_, ?_, ?_⟩
+  · funext j
+    cases (j == kindOf kd) <;> cases (j == kindOf ka) <;> simp
+  · funext c
+    cases e1 : (c == codeOf ka) <;> cases e2 : (c == codeOf kd) <;>
+      cases h1 : isTimer ka <;> cases h2 : isCanceller ka <;> cases h3 : isTimer kd <;>
+      cases h4 : isCanceller kd <;> cases h5 : σ.fired c <;> cases h6 : σ.cancelled c <;> simp_all
+  · funext c
+    cases (isTimer kd && c == codeOf kd) <;> cases (isTimer ka && c == codeOf ka) <;> simp
+
+theorem fire_comm (σ0 : ESt) (me ka kd t wa wd : Nat) (r : SRule) (hr : r.notFirst) (x : Emit)
+    (σa σd : ESt) (ha : σa.cnt = σ0.cnt + 1 ∧ σa.seen = fun j => j == ka || σ0.seen j)
+    (hd : σd.cnt = σ0.cnt + 1 ∧ σd.seen = fun j => j == kd || σ0.seen j) :
+    (fireRule σ0 me ka t wa r).count x + (fireRule σa me kd t wd r).count x
+    = (fireRule σ0 me kd t wd r).count x + (fireRule σd me ka t wa r).count x := by
   cases r with
   | first e kA kB em => exact absurd hr (by simp [SRule.notFirst])
-  | nth e n em => simp [fireRule]
+  | nth e n em => simp [fireRule, ha.1, hd.1]
+  | tmr e k0 dt kt dc kc => simp only [fireRule]; omega
   | dedup e k0 em =>
-    simp only [fireRule]
+    simp only [fireRule, ha.2, hd.2]
     have h2s : (k0 = ka) = (ka = k0) := propext eq_comm
     have h3s : (k0 = kd) = (kd = k0) := propext eq_comm
     by_cases h1 : (e == me) = true <;> by_cases h2 : ka = k0 <;> by_cases h3 : kd = k0 <;>
       by_cases h4 : σ0.seen k0 = true <;> simp_all
 
-theorem fire_comm_list (σ0 : ESt) (me ka kd : Nat) (x : Emit) : ∀ (rs : List SRule),
+theorem fire_comm_list (σ0 : ESt) (me ka kd t wa wd : Nat) (x : Emit) (σa σd : ESt)
+    (ha : σa.cnt = σ0.cnt + 1 ∧ σa.seen = fun j => j == ka || σ0.seen j)
+    (hd : σd.cnt = σ0.cnt + 1 ∧ σd.seen = fun j => j == kd || σ0.seen j) : ∀ (rs : List SRule),
     (∀ r ∈ rs, r.notFirst) →
-    (rs.flatMap (fireRule σ0 me ka)).count x
-      + (rs.flatMap (fireRule ⟨σ0.cnt + 1, fun j => j == ka || σ0.seen j⟩ me kd)).count x
-    = (rs.flatMap (fireRule σ0 me kd)).count x
-      + (rs.flatMap (fireRule ⟨σ0.cnt + 1, fun j => j == kd || σ0.seen j⟩ me ka)).count x := by
+    (rs.flatMap (fireRule σ0 me ka t wa)).count x + (rs.flatMap (fireRule σa me kd t wd)).count x
+    = (rs.flatMap (fireRule σ0 me kd t wd)).count x + (rs.flatMap (fireRule σd me ka t wa)).count x := by
   intro rs
   induction rs with
   | nil => intro _; rfl
   | cons r rs ih =>
     intro h
-    have h1 := fire_comm σ0 me ka kd r (h r (by simp)) x
+    have h1 := fire_comm σ0 me ka kd t wa wd r (h r (by simp)) x σa σd ha hd
     have h2 := ih (fun q hq => h q (by simp [hq]))
     simp only [List.flatMap_cons, List.count_append]
     omega
 
-/-- **ruleHandler_tieCommutative** — a stateful harness entity without `first` rules (script lines,
-    `nth`, `dedup`: family `stateful` of the check) commutes on same-timestamp deliveries, so
-    `par_eq_seq_tie_commutative_R` applies to it -/
-theorem ruleHandler_tieCommutative (prog : List (Nat × Nat × Emit)) (sprog : List SRule)
-    (h : ∀ r ∈ sprog, r.notFirst) : TieCommutative (ruleHandler prog sprog) := by
-  intro a d htg _ σ0
-  refine ⟨?_, ?_⟩
-  · simp only [ruleHandler, ruleStep]
-    congr 1
-    · funext j
-      cases (j == kindOf d.kind) <;> cases (j == kindOf a.kind) <;> simp
-  · simp only [ruleHandler, ruleStep, htg]
+/-- **ruleHandler_commAt** — a stateful harness entity without `first` rules (script lines, `nth`,
+    `dedup`, `tmr`: families `stateful` and `timers` of the check) commutes on two deliveries to one
+    entity at one timestamp, unless the two are a timer and the canceller of that very timer (which
+    the `tmr` rule creates together, in this order, in the same partition). -/
+theorem ruleHandler_commAt (prog : List (Nat × Nat × Emit)) (sprog : List SRule)
+    (h : ∀ r ∈ sprog, r.notFirst) (a d : PEv) (htg : a.tgt = d.tgt) (htm : a.time = d.time)
+    (hnc : ¬ conflict a.kind d.kind) : CommAt (ruleHandler prog sprog) a d := by
+  have hnc' : ¬ conflict d.kind a.kind := fun hc =>
+    hnc ⟨hc.1.symm, hc.2.elim (fun x => Or.inr ⟨x.2, x.1⟩) (fun x => Or.inl ⟨x.2, x.1⟩)⟩
+  intro σ0
+  simp only [ruleHandler, ruleStep_eq, htg, htm]
+  by_cases ga : gh σ0 a.kind = true <;> by_cases gd : gh σ0 d.kind = true
+  · simp [ga, gd]
+  · simp [ga, gd, gh_upd σ0 d.kind a.kind hnc']
+  · simp [ga, gd, gh_upd σ0 a.kind d.kind hnc]
+  · simp only [ga, gd, gh_upd σ0 a.kind d.kind hnc, gh_upd σ0 d.kind a.kind hnc', Bool.false_eq_true,
+      if_false]
+    refine ⟨upd_comm σ0 a.kind d.kind hnc, ?_⟩
     rw [← List.map_append, ← List.map_append]
     apply List.Perm.map
     rw [List.perm_iff_count]
     intro x
-    have := fire_comm_list σ0 d.tgt (kindOf a.kind) (kindOf d.kind) x sprog h
-    simp only [List.count_append]
+    have := fire_comm_list σ0 d.tgt (kindOf a.kind) (kindOf d.kind) d.time a.kind d.kind x
+      (upd σ0 a.kind) (upd σ0 d.kind) ⟨rfl, rfl⟩ ⟨rfl, rfl⟩ sprog h
+    simp only [rawEms, List.count_append]
     omega
 
 variable {τ : Type}
@@ -138,6 +205,32 @@ theorem agree_before_first_tie_R (hE : EHandler τ) (c : Cfg) (ids : List Nat)
       { parts := ps, cur := start, windows := 0, injected := 0, outboxed := 0, err := none }
       ⟨st, evs.map proj⟩ hids hlinks hw hpos rfl hse (TInv.init hi hstart hse hst) hpar) hnt
 
+/-- **parallelRunFrom_spec** — runs with `start_time ≠ epoch` (`parallelRunFrom`, `parallelRunRFrom`: what
+    the driver executes when a case has a start time): at the epoch they are `parallelRun` / `parallelRunR`;
+    without links every partition is the sequential engine on its own state; with links they are the
+    coordinator loops from barrier `start`, the form every coordinator theorem (`no_time_travel_run`,
+    `par_eq_seq_*`, `agree_before_first_tie*`) is stated for. -/
+theorem parallelRunFrom_spec {σ : Type} (h : Handler σ) (c : Cfg) (strict : Bool) (fuel wEff endT n start : Nat)
+    (ps : List (Part σ)) :
+    parallelRunFrom h c strict fuel wEff endT n 0 ps = parallelRun h c strict fuel wEff endT n ps
+    ∧ parallelRunRFrom h c strict fuel wEff endT n 0 ps = parallelRunR h c strict fuel wEff endT n ps
+    ∧ (c.links = [] → (parallelRunFrom h c strict fuel wEff endT n start ps).parts = ps.map (runSeq h endT fuel)
+        ∧ (parallelRunRFrom h c strict fuel wEff endT n start ps).parts = ps.map (runSeq h endT fuel))
+    ∧ (c.links ≠ [] →
+        parallelRunFrom h c strict fuel wEff endT n start ps = coordLoop h c strict fuel wEff endT n
+          { parts := ps, cur := start, windows := 0, injected := 0, outboxed := 0, err := none }
+        ∧ parallelRunRFrom h c strict fuel wEff endT n start ps = coordLoopR h c strict fuel wEff endT n
+          { parts := ps, cur := start, windows := 0, injected := 0, outboxed := 0, err := none }) := by
+  refine ⟨rfl, rfl, ?_, ?_⟩
+  · intro hno
+    simp [parallelRunFrom, parallelRunRFrom, hno, runIndependent]
+  · intro hl
+    have : c.links.isEmpty = false := by
+      cases hc : c.links with
+      | nil => exact absurd hc hl
+      | cons _ _ => rfl
+    simp [parallelRunFrom, parallelRunRFrom, this]
+
 /-! ## non-vacuity: the corpus witness `corpus/C05/tie-order-first-kind-wins.json` as the driver runs it -/
 
 def tieProg : List (Nat × Nat × Emit) := [(0, 0, ⟨100, 1, 2⟩), (1, 0, ⟨50, 1, 1⟩)]
@@ -167,10 +260,23 @@ example :
         ((runSeq (ruleHandlerL tieProg tieRules) 1000 10 (Part.initCtr 0 0 tieStR tieEvs 2)).obsLog x))) := by
   decide
 
-/-- `ruleHandler_tieCommutative`: the hypothesis holds for a rule set with `nth` and `dedup` -/
-example : ∀ r ∈ [SRule.nth 1 3 ⟨10, 1, 7⟩, SRule.dedup 0 2 ⟨100, 1, 4⟩], r.notFirst := by
+/-- `ruleHandler_commAt`: the hypotheses hold for a rule set with `nth`, `dedup` and `tmr`, and two plain
+    (role 0) events never conflict -/
+example : (∀ r ∈ [SRule.nth 1 3 ⟨10, 1, 7⟩, SRule.dedup 0 2 ⟨100, 1, 4⟩, SRule.tmr 1 0 40 4 10 5], r.notFirst)
+    ∧ ¬ conflict 66 129 := by
+  refine ⟨?_, by decide⟩
   intro r hr
   simp only [List.mem_cons, List.not_mem_nil, or_false] at hr
-  rcases hr with rfl | rfl <;> trivial
+  rcases hr with rfl | rfl | rfl <;> trivial
+
+/-- `ghost_is_silent` / cancellation as the driver runs it: entity 1 arms a timer (+40 ns) and its
+    canceller (+10 ns) at 10 ns; the timer's ghost is popped at 50 ns and changes nothing; the tick
+    at 250 ns comes after the cross-partition message at 140 ns in both runs (window 100 ns) -/
+example :
+    (parObs (coordLoopR (ruleHandlerL [(0, 0, ⟨100, 1, 2⟩), (1, 0, ⟨240, 1, 3⟩)] [.tmr 1 0 40 4 10 5]) tieCfg true 20 100 1000 20
+        { parts := [Part.initCtr 0 0 tieStR [⟨40, 0, 0, 0⟩] 2, Part.initCtr 1 0 tieStR [⟨10, 1, 1, 0⟩] 2],
+          cur := 0, windows := 0, injected := 0, outboxed := 0, err := none }).parts 1).map
+        (fun o => (o.1, kindOf o.2)) = [(10, 0), (20, 5), (50, 4), (140, 2), (250, 3)] := by
+  decide
 
 end HappyModel.C05
